@@ -19,8 +19,11 @@ CLAIMS = {
             "publication of the reports, are validated by the simulation monitors, not proved",
             "contract refinement + multiset ledger invariant; whole-system ledger invariant preserved by every step kind + induction over reachability (Lean 4) ; differential correspondence of the scheduler models; step-by-step replay of simulated runs by the Lean system model with the invariants (incl. the ledger) evaluated after every step"),
     "C03": ("Lean theorems: remove_node returns the head of the dead node's book as the crash item and the tail to the pool (load, worksteal); "
-            "with any number of crashes every index is outstanding, completed or crash-reported exactly once",
-            "contract refinement + ledger invariant with crash ghost (Lean 4) ; differential correspondence incl. crash/replacement sequences"),
+            "with any number of crashes every index is outstanding, completed or crash-reported exactly once. Whole system, --dist load (controller + workers + channels, every "
+            "interleaving, any number of earlier crashes/replacements/re-queues): the book of a live worker is completions in flight ++ the test it executes ++ what it holds, and when "
+            "the controller handles the death notice of a worker that died inside test i the crash report it publishes is about test i of the agreed collection "
+            "(C03_sys_load_crash_item; a seventh invariant layer about dead workers with a ghost history component)",
+            "contract refinement + ledger invariant with crash ghost; whole-system invariant by induction over the steps of the composed transition system (Lean 4) ; differential correspondence incl. crash/replacement sequences; the system model replays every simulated step"),
     "C05": ("Lean theorems over the two-thread worker model, for every interleaving of receiver steps (put/steal/shutdown, also behind the marker) with "
             "main-thread steps: executed/held/queued tests form a subsequence of the received stream whose missing elements are exactly the replied ones; "
             "next-item announcements form a chain ending in the held entry; a steal never touches started or announced tests",
@@ -77,8 +80,11 @@ CLAIMS = {
             "arithmetic case analysis of check_schedule, state invariant by induction over scheduler calls lifted to the DSession loop, whole-system invariant preserved by every step kind + induction over reachability (Lean 4) ; step-by-step replay of every simulated run by the Lean system model with the invariant evaluated after every step ; whole-system simulation with stand-off detection, differential correspondence of schedulers and of the worker threads (lock pre-emption)"),
     "C08": ("Lean theorems about the each scheduler (repaired): schedule() sends runtests_all + shutdown to every new node with its whole collection as book, skips started and still-collecting "
             "nodes; the crash item is the head of the dead node's book and the rest is parked; tests_finished is false while a rest is parked; a replacement of the same spec and collection "
-            "takes over exactly that rest (and is sent exactly it); a late node with nothing to take over, or with a different collection, is shut down; a node already down is handed nothing",
-            "definitional unfolding lemmas with side conditions (Lean 4) ; differential correspondence of EachScheduling; whole-system simulation incl. heterogeneous environments"),
+            "takes over exactly that rest (and is sent exactly it); a late node with nothing to take over, or with a different collection, is shut down; a node already down is handed nothing. "
+            "Over every history of scheduler calls (workers dying after they reported, replacements joining, flags changing arbitrarily; at most numnodes registered nodes as hypothesis): "
+            "the collection is complete only when every registered node has reported its own, and the schedule() that follows books the whole collection for every registered node and tells "
+            "each that is not down to run all of it (C08_each_every_environment_gets_everything)",
+            "definitional unfolding lemmas with side conditions; invariant by induction over scheduler-call histories + pigeonhole (Lean 4) ; differential correspondence of EachScheduling; whole-system simulation incl. heterogeneous environments"),
     "C09": ("Lean theorems (load, worksteal, loadscope family): no disagreement report iff all registered collections equal the first; otherwise schedule() publishes exactly one failed report "
             "per disagreeing worker naming the first worker, dispatches nothing and leaves the scheduler unchanged; loadscope family: a disagreeing late joiner is never registered and an "
             "unregistered node is never assigned work. The late-joiner clause is FALSE for load/worksteal on the current code: negation proved on a witness (known finding F4)",
